@@ -286,7 +286,8 @@ def check_exit(chk, tu):
 
 def check_spawn(chk, tu):
     site = 'thread-spawn'
-    chk.fn('wasi__threadX2Dspawn', 'wasiThreadSpawn')
+    chk.fn('wasi__threadX2Dspawn')
+    entry_name = [None]      # the thread start routine: whatever function pthread_create receives (found on the spawn paths below)
     # static counter starts at 1
     f = tu.fn('wasi__threadX2Dspawn')
     init = None
@@ -372,7 +373,13 @@ def check_spawn(chk, tu):
                        'start record is %r; expected {instance: newChild(instance), startArg, threadID: fetched id, startFunc: the export}'
                        % ({k: repr(v)[:40] for k, v in rec.items()},), site + ':record')
             pc = [a for nm, a, l in p.events if nm == 'pthread_create']
-            chk.expect(len(pc) == 1 and pc[0][2] == pe.FuncRef('wasiThreadSpawn'), 'R15.5', 'thread-entry', 'pthread_create%r' % (pc,), site + ':entry')
+            is_fn = len(pc) == 1 and isinstance(pc[0][2], pe.FuncRef) and pc[0][2].name in tu.functions and \
+                (astdb.file_of(tu.functions[pc[0][2].name]) or '').endswith('wasi.c')
+            chk.expect(is_fn, 'R15.5', 'thread-entry', 'pthread_create%r: the start routine is not a function of wasi.c' % (pc,), site + ':entry')
+            if is_fn:
+                if entry_name[0] not in (None, pc[0][2].name):
+                    raise AnalysisBroken('thread-spawn starts threads with two different routines: %s and %s' % (entry_name[0], pc[0][2].name))
+                entry_name[0] = pc[0][2].name
             created_ok = any(pe.norm_cond(c).op in ('==', '!=') and any(s.op == 'unk' and s.args[0] == 'pthread_create-result' for s in pe.sym_walk(c))
                              for c, t, _ in p.decisions)
             if isinstance(p.ret, int):
@@ -390,9 +397,11 @@ def check_spawn(chk, tu):
                                          'startFunc': pe.FuncRef('mod_wasi_thread_start')})
         cell = {'v': rec}
         st3['argptr'] = Ptr(cell, 'v')
-        return ('wasiThreadSpawn', [st3['argptr']], {})
+        return (entry_name[0], [st3['argptr']], {})
+    chk.require(entry_name[0] is not None, 'no spawn path reaches pthread_create with a start routine')
+    chk.fn(entry_name[0])
     paths = it.explore(setup2)
-    chk.require(len(paths) == 1, 'wasiThreadSpawn has %d paths' % len(paths))
+    chk.require(len(paths) == 1, '%s has %d paths' % (entry_name[0], len(paths)))
     ev = paths[0].events
     names = [e[0] for e in ev]
     fr = [i for i, e in enumerate(ev) if e[0] == 'extern:free']
